@@ -151,9 +151,43 @@ def as2d(a, v):
     return a.reshape(v, -1)
 
 
+def observe(case, est, Xfit, Yfit, W):
+    """Record the fitted attributes and transform / predict / score on the case's new-data sets
+    of an estimator that has just been fitted for `case`."""
+    rec = dict(news=[])
+    n = case["n"]
+    rec["pkt"] = np.asarray(est.pkt_, float).tolist()
+    rec["pky"] = as2d(est.pky_, n).tolist()
+    rec["pty"] = as2d(est.pty_, case["k"]).tolist()
+    rec["ptk"] = np.asarray(est.ptk_, float).tolist()
+    rec["Yfit"] = as2d(Yfit, n).tolist()
+    if W is not None:
+        rec["W_pre"] = np.asarray(W, float).tolist()
+    if case["regressor"] in ("none", "krr_unfitted", "krr_fitted"):
+        rec["W"] = as2d(est.regressor_.dual_coef_, n).tolist()
+        rec["alpha_used"] = float(est.regressor_.alpha)
+    for tag, Xv, Yv in new_sets(case):
+        v = len(Xv)
+        o = dict(tag=tag, v=v)
+        Xarg = kern(case, Xv, case["X"]) if case["kernel"] == "precomputed" else Xv
+        if case["kernel"] == "precomputed" and tag == "train":
+            Xarg = Xfit
+        Yarg = Yv[:, 0] if case["y1d"] else Yv
+        for name, f in (("T", lambda: est.transform(Xarg)), ("pred", lambda: est.predict(Xarg)),
+                        ("score", lambda: est.score(Xarg, Yarg))):
+            if name == "score" and case["kernel"] == "precomputed" and tag != "train":
+                continue            # the API has no way to pass K_VV for a precomputed kernel
+            try:
+                r = f()
+                o[name] = float(r) if name == "score" else as2d(r, v).tolist()
+            except Exception as e:  # noqa
+                o[name + "_error"] = "%s: %s" % (type(e).__name__, str(e)[:200])
+        rec["news"].append(o)
+    return rec
+
+
 def run_impl(case):
     """Fit through the public API and observe attributes, transform, predict, score."""
-    rec = dict(news=[])
     with warnings.catch_warnings():
         warnings.simplefilter("ignore")
         try:
@@ -163,36 +197,8 @@ def run_impl(case):
             else:
                 est.fit(Xfit, Yfit, W)
         except Exception as e:  # noqa
-            rec["error"] = type(e).__name__
-            rec["error_msg"] = str(e)[:300]
-            return rec, None
-        n = case["n"]
-        rec["pkt"] = np.asarray(est.pkt_, float).tolist()
-        rec["pky"] = as2d(est.pky_, n).tolist()
-        rec["pty"] = as2d(est.pty_, case["k"]).tolist()
-        rec["Yfit"] = as2d(Yfit, n).tolist()
-        if W is not None:
-            rec["W_pre"] = np.asarray(W, float).tolist()
-        if case["regressor"] in ("none", "krr_unfitted", "krr_fitted"):
-            rec["W"] = as2d(est.regressor_.dual_coef_, n).tolist()
-            rec["alpha_used"] = float(est.regressor_.alpha)
-        for tag, Xv, Yv in new_sets(case):
-            v = len(Xv)
-            o = dict(tag=tag, v=v)
-            Xarg = kern(case, Xv, case["X"]) if case["kernel"] == "precomputed" else Xv
-            if case["kernel"] == "precomputed" and tag == "train":
-                Xarg = Xfit
-            Yarg = Yv[:, 0] if case["y1d"] else Yv
-            for name, f in (("T", lambda: est.transform(Xarg)), ("pred", lambda: est.predict(Xarg)),
-                            ("score", lambda: est.score(Xarg, Yarg))):
-                if name == "score" and case["kernel"] == "precomputed" and tag != "train":
-                    continue            # the API has no way to pass K_VV for a precomputed kernel
-                try:
-                    r = f()
-                    o[name] = float(r) if name == "score" else as2d(r, v).tolist()
-                except Exception as e:  # noqa
-                    o[name + "_error"] = "%s: %s" % (type(e).__name__, str(e)[:200])
-            rec["news"].append(o)
+            return dict(news=[], error=type(e).__name__, error_msg=str(e)[:300]), None
+        rec = observe(case, est, Xfit, Yfit, W)
     return rec, est
 
 
@@ -365,6 +371,19 @@ def oracle(case, rec, est, info):
             msgs.append(("shape", "transform returned shape %s" % (np.array(o["T"]).shape,)))
     if gated:
         return msgs
+    if any(k.endswith("_error") for o in rec["news"] for k in o):
+        return msgs                 # an API call raised: reported above; the equivalences need all outputs
+    try:
+        return msgs + _equivalences(case, rec, est, info, sets)
+    except Exception as e:  # noqa  (an implementation call raised inside the equivalence checks)
+        return msgs + [("api_raises", "a transform / predict / score / fit call made while checking the "
+                        "equivalences raised %s: %s" % (type(e).__name__, str(e)[:200]))]
+
+
+def _equivalences(case, rec, est, info, sets):
+    msgs = []
+    X = np.array(case["X"], float)
+    n, k = case["n"], case["k"]
     with warnings.catch_warnings():
         warnings.simplefilter("ignore")
         # (e) score = -(documented loss + regression loss); in-sample formula on the training set
@@ -451,3 +470,254 @@ def oracle(case, rec, est, info):
                         msgs.append(("kpca_limit", "mixing=1: projections differ from KernelPCA/sqrt(scale) on a %s set (max dev %.3g)" % (
                             tag, float(np.max(np.abs(T2 @ T2.T - ob[0] @ ob[0].T))))))
     return msgs
+
+
+# --------------------------------------------------------------------------------- histories
+# One estimator OBJECT used several times: construct, fit, set_params (any constructor
+# argument) and / or new data, fit again, then transform / predict / score.  The machine of
+# coq/Model/KPCovRState.v says that after every fit the object is indistinguishable from a new
+# object constructed with the arguments in force and fitted once (C05_refit_is_fresh_fit), so
+# every stage of a history is checked (i) like an independent case against the single-fit model
+# and the five equivalences and (ii) directly against a fresh estimator.
+HISTORY_KINDS = ["center_flip", "center_flip", "data", "config", "fresh", "same"]
+CFG_FIELDS = ("kernel", "base_kernel", "params", "center", "regressor", "mixing", "alpha")
+
+
+def _merge(data_case, cfg_case, rng):
+    """the data (X, Y, new-data sets) of one case with the configuration of another"""
+    c = dict(data_case)
+    for f in CFG_FIELDS:
+        c[f] = cfg_case[f]
+    c["params"] = dict(cfg_case["params"])
+    c["y1d"] = bool(c["p"] == 1 and c["regressor"] in ("none", "krr_unfitted", "krr_fitted")
+                    and (cfg_case["y1d"] or rng.random() < 0.3))
+    c["k"] = max(1, min(cfg_case["k"], c["n"]))
+    return c
+
+
+def gen_history(rng, quick):
+    first = gen_case(rng, quick)
+    stages, kinds = [first], ["first"]
+    nst = 2 if rng.random() < 0.75 else 3
+    for _ in range(nst - 1):
+        prev = stages[-1]
+        kind = rng.choice(HISTORY_KINDS)
+        other = gen_case(rng, quick)
+        if kind == "center_flip":
+            c = _merge(prev, prev, rng)
+            c["y1d"] = prev["y1d"]
+            c["center"] = not prev["center"]
+        elif kind == "data":
+            c = _merge(other, prev, rng)
+        elif kind == "config":
+            c = _merge(prev, other, rng)
+        elif kind == "same":
+            c = _merge(prev, prev, rng)
+            c["y1d"] = prev["y1d"]
+        else:
+            c = other
+        stages.append(c)
+        kinds.append(kind)
+    return dict(stages=stages, kinds=kinds)
+
+
+def _fresh_vs_refit(case, rec, fresh):
+    """refit = fresh fit, on the implementation: the object with a past against a new one"""
+    msgs = []
+    if "error" in fresh:
+        return msgs
+    for nm, f in (("pkt_ pkt_^T", lambda r: np.array(r["pkt"]) @ np.array(r["pkt"]).T),
+                  ("pky_", lambda r: np.array(r["pky"])),
+                  ("pty_^T pty_", lambda r: np.array(r["pty"]).T @ np.array(r["pty"])),
+                  ("ptk_^T ptk_", lambda r: np.array(r["ptk"]).T @ np.array(r["ptk"]))):
+        if not _close(f(rec), f(fresh), 1e-7, 1e-10):
+            msgs.append(("refit_attr", "after a refit %s differs from that of a fresh estimator with the same "
+                         "arguments and data (max dev %.3g)" % (nm, float(np.max(np.abs(f(rec) - f(fresh)))))))
+    for o, q in zip(rec["news"], fresh["news"]):
+        for nm, label in (("T", "transform"), ("pred", "predict"), ("score", "score")):
+            if nm not in o or nm not in q:
+                if (nm in o) != (nm in q):
+                    msgs.append(("refit_raises", "%s on a %s set: refitted object %s, fresh object %s" % (
+                        label, o["tag"], o.get(nm + "_error", "returns"), q.get(nm + "_error", "returns"))))
+                continue
+            a, b = np.array(o[nm], float), np.array(q[nm], float)
+            if nm == "T":
+                a, b = a @ a.T, b @ b.T
+            if not _close(a, b, 1e-7, 1e-10):
+                msgs.append(("refit_" + nm, "%s on a %s set of %d samples after a refit differs from a fresh "
+                             "estimator with the same arguments and data (max dev %.3g)" % (
+                                 label, o["tag"], o["v"], float(np.max(np.abs(a - b))))))
+    return msgs
+
+
+def _probe(est, case, Xfit, Yfit, expect, label, probes, msgs):
+    """Call transform / predict / score where the machine of coq/Model/KPCovRState.v says the call
+    does not return (NotFitted / AttrError); a returned value is a model-implementation mismatch."""
+    Yarg = np.asarray(Yfit, float)
+    for name, f in (("transform", lambda: est.transform(Xfit)), ("predict", lambda: est.predict(Xfit)),
+                    ("score", lambda: est.score(Xfit, Yarg))):
+        try:
+            f()
+            got = "returns"
+        except Exception as e:  # noqa
+            got = type(e).__name__
+        if probes is not None:
+            probes["%s:%s" % (label, got)] += 1
+        if got not in expect:
+            msgs.append(("model_guard_" + label, "%s on %s: the object model says the call raises %s, the "
+                         "implementation %s" % (name, label, "/".join(expect), got)))
+
+
+def run_history(hist, probes=None):
+    """Drive ONE estimator object through the history.  Returns per stage (rec, info, msgs)."""
+    out = []
+    est = None
+    ever_centred = False
+    with warnings.catch_warnings():
+        warnings.simplefilter("ignore")
+        for si, case in enumerate(hist["stages"]):
+            extra = []
+            try:
+                est_new, Xfit, Yfit, W = build(case)
+                if est is None:
+                    est = est_new
+                    ever_centred = False
+                    # machine: transform / predict / score (init p) = NotFitted
+                    _probe(est, case, Xfit, Yfit, ("NotFittedError",), "an unfitted object", probes, extra)
+                else:
+                    est.set_params(**est_new.get_params(deep=False))
+                if W is None:
+                    est.fit(Xfit, Yfit)
+                else:
+                    est.fit(Xfit, Yfit, W)
+            except Exception as e:  # noqa
+                rec = dict(news=[], error=type(e).__name__, error_msg=str(e)[:300])
+                out.append((rec, None, oracle(case, rec, None, None) + extra))
+                est = None          # a failed fit leaves a half-updated object: start again
+                continue
+            ever_centred = ever_centred or case["center"]
+            rec = observe(case, est, Xfit, Yfit, W)
+            info = mirror(case, rec)
+            msgs = oracle(case, rec, est, info) + extra
+            if si > 0 and info["skip"] is None:
+                fresh, _ = run_impl(case)
+                msgs = msgs + _fresh_vs_refit(case, rec, fresh)
+            if not ever_centred:
+                # machine (center_on_without_refit): center switched on without a refit on an
+                # object that has no centerer_ -> the three methods raise AttributeError
+                est.set_params(center=True)
+                _probe(est, case, Xfit, Yfit, ("AttributeError",), "center=True set after a center=False fit, no refit",
+                       probes, msgs)
+                est.set_params(center=False)
+            out.append((rec, info, msgs))
+    return out
+
+
+# --------------------------------------------------------------------------------- fit guards
+# The rejection branches of KernelPCovR.fit / check_krr_fit (coq/Model/KPCovRGuard.v): calls are
+# described discretely, the implementation's outcome is classified by its ValueError message and
+# compared inside Coq with [fit_guard]; for accepted calls n_components_ and pkt_.shape[1] too.
+GUARD_REGS = ["none", "pre", "other_ridge", "other_string", "krr_ok", "krr_mismatch", "fit_ok", "fit_features",
+              "fit_ndim", "fit_cols", "fit_mismatch"]
+GUARD_MSG = [("Regressor must be an instance", 1), ("Kernel parameter mismatch", 2), ("features, but", 3),
+             ("dimension incompatible", 4), ("shape incompatible", 5), ("n_components=", 6)]
+
+
+def gen_guard_case(rng):
+    n, d, p = rng.randint(3, 7), rng.randint(2, 4), rng.choice([1, 2, 3])
+    r = rng.random()
+    k = None if r < 0.2 else rng.randint(1, n) if r < 0.6 else 0 if r < 0.68 else n + rng.randint(1, 3) if r < 0.88 \
+        else -rng.randint(1, 3)
+    return dict(n=n, d=d, p=p, yndim=1 if (p == 1 and rng.random() < 0.5) else 2, k=k,
+                reg=rng.choice(GUARD_REGS), kernel=rng.choice(["linear", "rbf", "poly"]),
+                gamma=rng.choice([None, 0.3]), mis=rng.choice(["kernel", "gamma", "degree", "coef0"]),
+                seed=rng.randrange(2 ** 31))
+
+
+def guard_descr(regressor, kp):
+    """the model's description (reg_arg term) of the regressor argument, read off the object"""
+    from sklearn.kernel_ridge import KernelRidge
+    if regressor is None:
+        return "GNone"
+    if isinstance(regressor, str) and regressor == "precomputed":
+        return "GPre"
+    if not isinstance(regressor, KernelRidge):
+        return "GOther"
+    match = all(getattr(regressor, a) == kp.get(a) for a in ("kernel", "gamma", "degree", "coef0")) \
+        and regressor.kernel_params is None
+    if not hasattr(regressor, "dual_coef_"):
+        return "(GKrr %s None)" % ("true" if match else "false")
+    dc = np.asarray(regressor.dual_coef_)
+    return "(GKrr %s (Some (%d, %d, %d)))" % ("true" if match else "false", int(regressor.n_features_in_),
+                                              dc.ndim, dc.shape[-1])
+
+
+def run_guard(g):
+    from sklearn.kernel_ridge import KernelRidge
+    from sklearn.linear_model import Ridge
+    from skmatter.decomposition import KernelPCovR
+    rs = np.random.RandomState(g["seed"])
+    n, d, p = g["n"], g["d"], g["p"]
+    X = rs.standard_normal((n, d))
+    Y = rs.standard_normal((n, p))
+    Yarg = Y[:, 0] if g["yndim"] == 1 else Y
+    kp = dict(kernel=g["kernel"], gamma=g["gamma"], degree=3, coef0=1)
+    reg = g["reg"]
+    rp = dict(kp)
+    if reg in ("krr_mismatch", "fit_mismatch"):
+        rp[g["mis"]] = {"kernel": "sigmoid", "gamma": 0.77, "degree": 4, "coef0": 2.5}[g["mis"]]
+    if reg == "none":
+        regressor = None
+    elif reg == "pre":
+        regressor = "precomputed"
+    elif reg == "other_ridge":
+        regressor = Ridge()
+    elif reg == "other_string":
+        regressor = "kernel_ridge"
+    else:
+        regressor = KernelRidge(alpha=0.1, **rp)
+        if reg.startswith("fit"):
+            Xr = rs.standard_normal((n, d + 1)) if reg == "fit_features" else X
+            if reg == "fit_ndim":
+                Yr = Y if g["yndim"] == 1 else Y[:, 0]
+            elif reg == "fit_cols":
+                Yr = rs.standard_normal((n, p + 1))
+            else:
+                Yr = Yarg
+            with warnings.catch_warnings():
+                warnings.simplefilter("ignore")
+                regressor.fit(Xr, Yr)
+    obs = dict(code=0, ncomp=-1, cols=-1, msg="", reg_term=guard_descr(regressor, kp))
+    with warnings.catch_warnings():
+        warnings.simplefilter("ignore")
+        try:
+            est = KernelPCovR(mixing=0.5, n_components=g["k"], regressor=regressor, **kp)
+            est.fit(X, Yarg)
+            obs.update(ncomp=int(est.n_components_), cols=int(np.asarray(est.pkt_).shape[1]))
+            T = est.transform(X)
+            if T.shape != (n, obs["ncomp"]):
+                obs["cols"] = -2
+        except Exception as e:  # noqa
+            obs["msg"] = "%s: %s" % (type(e).__name__, str(e)[:160])
+            obs["code"] = 99
+            if isinstance(e, ValueError):
+                for pat, code in GUARD_MSG:
+                    if pat in str(e):
+                        obs["code"] = code
+                        break
+    return obs
+
+
+def guard_coq(g, obs):
+    return "guard_case (mk_gin %s %d %d %d %d %s) %d%%nat %s %s" % (
+        obs["reg_term"], g["n"], g["d"], g["yndim"], g["p"],
+        "None" if g["k"] is None else "(Some %s)" % C.Zl(g["k"]), obs["code"], C.Zl(obs["ncomp"]), C.Zl(obs["cols"]))
+
+
+def guard_expected_accept(g, o):
+    """independent statement of admissibility (property: fit accepts None / precomputed / a
+    KernelRidge with the estimator's kernel arguments, fitted on compatible data or not, and
+    0 <= n_components <= n or None)"""
+    if g["reg"] not in ("none", "pre", "krr_ok", "fit_ok"):
+        return False
+    return g["k"] is None or 0 <= g["k"] <= g["n"]
